@@ -27,7 +27,7 @@ ASSUMPTIONS = COMMON_ASSUMPTIONS
 
 def check_one(ctx, key: str, label: str, always_single: bool):
     P = ctx.P
-    f = sched.scheduler(P, key)
+    f = _flag_call_split(sched.scheduler(P, key))
     ctx.touch(f)
     g = cfg_of(f)   # conditions normalised with single-definition locals substituted
     env = single_defs(f)
@@ -265,6 +265,74 @@ def _get_ops_form(v: ast.expr, pipe: str):
         ready = rp is not None and isinstance(rp, ast.Constant) and rp.value is True
         return (("ready" if ready else "any") + ("1" if first else "")), norm.U(v)
     return None, f"{norm.U(v)}: not a get_ops call on the popped pipeline's runtime status"
+
+
+def _flag_call_split(f):
+    """Normal form for C17#5.  One listing call parameterised by a mode flag, cut to one element under the same flag,
+
+        X = R.get_ops(S, require_parents_complete=E);  if E: X = X[:1]          (consecutive, the `if` has no else and nothing else in it)
+
+    is the case split the rule is stated on:  `if E: X = R.get_ops(S, require_parents_complete=True)[:1]  else: X = R.get_ops(S,
+    require_parents_complete=False)`  (E a plain name or attribute path, so evaluating it twice changes nothing)."""
+    from ..model import Func
+    from ..util import _block_lists
+
+    def match(blk, i):
+        a = blk[i]
+        if i + 1 >= len(blk) or not (isinstance(a, ast.Assign) and len(a.targets) == 1 and isinstance(a.targets[0], ast.Name)):
+            return None
+        x = a.targets[0].id
+        c = a.value
+        if not (isinstance(c, ast.Call) and norm.call_name(c) == "get_ops" and isinstance(c.func, ast.Attribute)):
+            return None
+        kws = [k for k in c.keywords if k.arg == "require_parents_complete"]
+        if len(kws) != 1 or not isinstance(kws[0].value, (ast.Name, ast.Attribute)):
+            return None
+        e = kws[0].value
+        b = blk[i + 1]
+        if not (isinstance(b, ast.If) and not b.orelse and len(b.body) == 1 and norm.U(b.test) == norm.U(e)):
+            return None
+        t = b.body[0]
+        if not (isinstance(t, ast.Assign) and len(t.targets) == 1 and norm.is_name(t.targets[0], x) and isinstance(t.value, ast.Subscript)
+                and norm.is_name(t.value.value, x) and isinstance(t.value.slice, ast.Slice) and t.value.slice.lower is None and t.value.slice.step is None
+                and isinstance(t.value.slice.upper, ast.Constant) and t.value.slice.upper.value == 1):
+            return None
+        if any(isinstance(n, ast.Name) and n.id == x for n in ast.walk(c)):
+            return None
+        return x, c, e, b, t
+    if not any(match(blk, i) for o in ast.walk(f.node) for _f, blk in _block_lists(o) for i in range(len(blk))):
+        return f
+    node = norm.clone(f.node)
+    for o in list(ast.walk(node)):
+        for _f, blk in _block_lists(o):
+            i = 0
+            while i < len(blk):
+                m = match(blk, i)
+                if m:
+                    x, c, e, b, t = m
+
+                    def call(flag):
+                        cc = norm.clone(c)
+                        for k in cc.keywords:
+                            if k.arg == "require_parents_complete":
+                                k.value = ast.Constant(value=flag)
+                        return cc
+                    one = ast.Assign(targets=[ast.Name(id=x, ctx=ast.Store())], value=ast.Subscript(value=call(True), slice=norm.clone(t.value.slice), ctx=ast.Load()))
+                    many = ast.Assign(targets=[ast.Name(id=x, ctx=ast.Store())], value=call(False))
+                    new = ast.If(test=norm.clone(e), body=[one], orelse=[many])
+                    for z in ast.walk(new):
+                        if not hasattr(z, "lineno") and isinstance(z, (ast.expr, ast.stmt)):
+                            ast.copy_location(z, blk[i])
+                    ast.copy_location(one, t)
+                    ast.copy_location(many, blk[i])
+                    blk[i:i + 2] = [new]
+                i += 1
+    ast.fix_missing_locations(node)
+    for n in ast.walk(node):
+        for ch in ast.iter_child_nodes(n):
+            ch._parent = n  # type: ignore[attr-defined]
+    node._parent = getattr(f.node, "_parent", None)  # type: ignore[attr-defined]
+    return Func(f.mod, f.qual, node, f.cls)
 
 
 def run(ctx):
